@@ -24,6 +24,9 @@ class C06(SCheck):
                              sizes=lambda rr: gen.boundary_size(rr, bs, cap=(3000 if bs < 64 else cap)), bs=bs)
         if r.random() < 0.5 and bs >= 4096:
             ops.append(gen.f_op("src/big", bs * r.randrange(3, 9) + r.choice([0, 1, bs - 1]), pat=r.randrange(1, 1 << 30)))
+        if bs >= 4096 and r.random() < 0.35:
+            ln, runs = gen.sparse_layout(r, style=r.choice(["inter", "many", "lead", "trail"]), max_runs=6)
+            ops.append(gen.f_op("src/sparse", ln, runs=runs, mtime=1_300_000_000_123_456_789))
         flags = {"r": True}
         if r.random() < 0.2:
             flags["fsync"] = True
@@ -35,7 +38,18 @@ class C06(SCheck):
         if r.random() < 0.4:
             ops.append(gen.d_op("dst"))
         inv = gen.mk_inv(["src"], dest, block_size=bs, **flags)
-        return {"setup": ops, "steps": [{"inv": inv}]}
+        # kernel configuration of the run: which optional facilities exist (same for all schedules of the case)
+        kernel = {}
+        c = r.random()
+        if c < 0.25:
+            kernel["cfr"] = r.choice(["ENOSYS", "EXDEV", "EPERM"])
+        elif c < 0.35:
+            kernel["max_io"] = r.choice([4096, 65536]) if bs >= 4096 else 7
+        if r.random() < 0.5:
+            kernel["fiemap"] = "emulate"
+            if r.random() < 0.3:
+                kernel["fiemap_split"] = 4096
+        return {"setup": ops, "steps": [{"inv": inv}], "kernel": kernel, "max_events": 400000}
 
     def gen_plans(self, r, case, k):
         plans = []
